@@ -2,6 +2,8 @@ import PsycheModel.Lemmas.Climb
 import PsycheModel.ExprSpec
 import PsycheModel.ClimbReal
 import PsycheModel.Lemmas.Rotate
+import PsycheModel.Lemmas.Expr
+import PsycheModel.ExprReal
 /-!
 # C06 — Expression trees respect C operator precedence and associativity
 
@@ -141,3 +143,94 @@ example :
   exact .bin (by decide) (.bin (by decide) .atom (.un rfl (.amb rfl rfl rfl rfl)) rfl) .atom rfl
 
 end PsycheModel.Rotate
+
+/-! ## All layers: N-ary operators with the conditional operator, casts, prefix and postfix operators, subscripts, member
+access, calls with argument lists and parentheses (`PsycheModel/Expr.lean`) -/
+namespace PsycheModel.Expr
+open PsycheModel.Generated
+
+set_option maxRecDepth 20000
+
+/-- **C06, all layers.**  For every operator table satisfying the five sanity conditions (`Tbl.Sane`; discharged for the
+tables regenerated from the source by `realT_sane`), every expression tree `e` the C11 grammar derives (`ok`: every operand at
+the level its production names - `cond ? expression : conditional-expression`, unary-expression on the left of an assignment
+and under `++`/`--`, cast-expression under the other prefix operators and a cast, postfix-expression under postfix operators,
+assignment-expressions as call arguments, full expressions in parentheses, subscripts and the middle of `?:`), every cutoff
+level `c ≥ 1` at which `e` is derivable, and every following token list that ends the expression (an operator below the
+cutoff that is not an assignment operator, or no operator, and no `[ ( . -> ++ --`): parsing the printing of `e` - with no
+parentheses other than the tree's own `paren` nodes - yields exactly `e` and leaves exactly the rest.  No bound on size or
+depth.  The model includes the parser's rejection rule; the theorem shows it never fires on a derivable tree. -/
+theorem expr_parse_pp (T : Tbl) (hT : T.Sane) (c : Nat) (e : E) (rest : List Tok) (hok : ok T e = true)
+    (hlv : atLevel T c e = true) (hc : 1 ≤ c) (hso : StopO T c rest) (hna : NA T rest) (hsp : StopP T rest) :
+    ∃ fuel, nary T fuel c (pp T e ++ rest) = some (e, rest) :=
+  (all T hT (pp T e).length).N e c rest (Nat.le_refl _) hok hlv hc hso hna hsp
+
+/-- a whole expression (`parseExpression`): every derivable tree, followed by nothing -/
+theorem expression_parse_pp (T : Tbl) (hT : T.Sane) (e : E) (hok : ok T e = true) :
+    ∃ fuel, nary T fuel 1 (pp T e) = some (e, []) := by
+  have := expr_parse_pp T hT 1 e [] hok (atLevel_one T hT e hok) (Nat.le_refl _) (stopO_zero T (Nat.le_refl _) rfl)
+    (NA_nil T hT) trivial
+  simpa using this
+
+/-- the same for the parser's own tables -/
+theorem expression_parse_pp_real (e : E) (hok : ok realT e = true) : ∃ fuel, nary realT fuel 1 (pp realT e) = some (e, []) :=
+  expression_parse_pp realT realT_sane e hok
+
+/-- more fuel never changes a result -/
+theorem nary_fuel_irrelevant (T : Tbl) {f f' c ts x} (h : nary T f c ts = some x) (hf : f ≤ f') : nary T f' c ts = some x :=
+  (le_of_le T hf).nary _ _ _ h
+
+/-- printing determines the tree: two derivable trees with the same printing are equal - no other grouping of the same tokens
+is derivable (unambiguity of the grammar by levels, as a corollary of the parser being a function) -/
+theorem pp_injective_on_ok (T : Tbl) (hT : T.Sane) (e e' : E) (h : ok T e = true) (h' : ok T e' = true) (hpp : pp T e = pp T e') :
+    e = e' := by
+  obtain ⟨f, hf⟩ := expression_parse_pp T hT e h
+  obtain ⟨f', hf'⟩ := expression_parse_pp T hT e' h'
+  have h1 := nary_fuel_irrelevant T hf (Nat.le_max_left f f')
+  have h2 := nary_fuel_irrelevant T hf' (Nat.le_max_right f f')
+  rw [hpp, h2] at h1
+  injection h1 with h1
+  exact (Prod.mk.inj h1).1.symm
+
+/-! ### Non-vacuity, with the real tables -/
+def ix (k : Kind) : Nat := opTokens.idxOf k
+
+mutual
+def E.beq : E → E → Bool
+  | .atom n, .atom m => n == m
+  | .bin o l r, .bin o' l' r' => o == o' && E.beq l l' && E.beq r r'
+  | .cond c t f, .cond c' t' f' => E.beq c c' && E.beq t t' && E.beq f f'
+  | .condG c f, .condG c' f' => E.beq c c' && E.beq f f'
+  | .paren e, .paren e' => E.beq e e'
+  | .cast e, .cast e' => E.beq e e'
+  | .pre o e, .pre o' e' => o == o' && E.beq e e'
+  | .post o e, .post o' e' => o == o' && E.beq e e'
+  | .idx e i, .idx e' i' => E.beq e e' && E.beq i i'
+  | .mem d e n, .mem d' e' n' => d == d' && E.beq e e' && n == n'
+  | .call f as, .call f' as' => E.beq f f' && E.beqL as as'
+  | _, _ => false
+def E.beqL : List E → List E → Bool
+  | [], [] => true
+  | a :: as, b :: bs => E.beq a b && E.beqL as bs
+  | _, _ => false
+end
+
+/-- `x = a || b ? c , d : ! (T) ++ p ++ [ i ] ( u , v = w ) -> m * - q` -/
+def sample : E :=
+  .bin (ix .EqualsToken) (.atom 0)
+    (.cond (.bin (ix .BarBarToken) (.atom 1) (.atom 2)) (.bin (ix .CommaToken) (.atom 3) (.atom 4))
+      (.bin (ix .AsteriskToken)
+        (.pre (ix .ExclamationToken) (.cast (.pre (ix .PlusPlusToken)
+          (.mem 1 (.call (.idx (.post (ix .PlusPlusToken) (.atom 5)) (.atom 6)) [.atom 7, .bin (ix .EqualsToken) (.atom 8) (.atom 9)]) 10))))
+        (.pre (ix .MinusToken) (.atom 11))))
+example : ok realT sample = true := by decide
+example : (match nary realT 60 1 (pp realT sample) with | some (e, []) => E.beq e sample | _ => false) = true := by decide
+/-- the rejection rule fires outside the grammar: `a ? b : c = d` and `a + b = c` are refused, `a = b ? c : d = e` is not derivable either -/
+example : (nary realT 40 1 [.atom 0, .q, .atom 1, .colon, .atom 2, .op (ix .EqualsToken), .atom 3]).isNone = true := by decide
+example : (nary realT 40 1 [.atom 0, .op (ix .PlusToken), .atom 1, .op (ix .EqualsToken), .atom 2]).isNone = true := by decide
+/-- conditional operators group to the right, and a comma needs parentheses in a call argument -/
+example : (match nary realT 40 1 [.atom 0, .q, .atom 1, .colon, .atom 2, .q, .atom 3, .colon, .atom 4] with
+    | some (e, []) => E.beq e (.cond (.atom 0) (.atom 1) (.cond (.atom 2) (.atom 3) (.atom 4))) | _ => false) = true := by decide
+example : ok realT (.call (.atom 0) [.bin (ix .CommaToken) (.atom 1) (.atom 2)]) = false := by decide
+
+end PsycheModel.Expr
